@@ -47,7 +47,7 @@ DecodeOK(e) ==
 AccOK(e) ==
   LET r == res[e.h] IN
   /\ e.st # "panic"
-  /\ r.cls = "must" => Matches(PathRef(r.buf, r.def, e.path, e.acc), Outcome(e))
+  /\ r.cls \in {"must", "wf"} => Matches(PathRef(r.buf, r.def, e.path, e.acc), Outcome(e))
   /\ r.cls = "empty" => e.st = (IF Len(e.path) = 1 /\ Declared(r.def, Abs(e.path[1])) THEN "notfound"
                                 ELSE IF Len(e.path) = 1 THEN "notdefined" ELSE e.st)
 
@@ -55,7 +55,7 @@ NestedExp(e) == LET r == res[e.hp] IN NestedRef(r.buf, r.def, e.tag, e.all = 1)
 NestedOK(e) ==
   LET r == res[e.hp] IN
   /\ e.st # "panic"
-  /\ r.cls = "must" =>
+  /\ r.cls \in {"must", "wf"} =>
        LET x == NestedExp(e) IN
        IF x.class = "val"
        THEN LET nd == NestedDef(r.def, Abs(e.tag))
@@ -69,7 +69,7 @@ RangeOK(e) ==
   LET r == res[e.h]
       seen == {<<e.rng[i][1], e.rng[i][2]>> : i \in 1..Len(e.rng)} IN
   /\ e.st = "ok"
-  /\ r.cls \in {"must", "empty"} =>
+  /\ r.cls \in {"must", "wf", "empty"} =>
        IF e.tag = 0
        THEN seen = RangeRef(r.buf, r.def) /\ Len(e.rng) = Len(r.def.tags)
        ELSE /\ seen \subseteq RangeRef(r.buf, r.def) /\ Cardinality(seen) = Len(e.rng)
@@ -101,7 +101,7 @@ Step ==
                /\ bad' = IF e.hp \in 1..Len(res) /\ res[e.hp].live THEN Flag(NestedOK(e)) ELSE bad
                /\ res' = IF e.hp \in 1..Len(res) /\ e.st = "ok" /\ e.hs # <<>>
                          THEN LET r == res[e.hp]
-                                  x == IF r.cls = "must" THEN NestedExp(e) ELSE [class |-> "x", bufs |-> <<>>] IN
+                                  x == IF r.cls \in {"must", "wf"} THEN NestedExp(e) ELSE [class |-> "x", bufs |-> <<>>] IN
                               IF x.class = "val" /\ Len(x.bufs) = Len(e.hs)
                               THEN BindAll(res, e.hs, x.bufs, NestedDef(r.def, Abs(e.tag)), r.mode)
                               ELSE BindAny(res, e.hs, r.mode)     \* results the model cannot attribute to an input: not judged further
